@@ -82,7 +82,7 @@ static RCP<const MatrixExpr> as_mat(const RCP<const Basic> &b)
 }
 
 // ---------------------------------------------------------------- recipe -> library
-static RCP<const MatrixExpr> build(const Node &n)
+static RCP<const MatrixExpr> mbuild(const Node &n)
 {
     if (n.kids.empty() || !n.kids[0].is_atom() || !n.kids[0].kids.empty())
         throw BadOp();
@@ -125,7 +125,7 @@ static RCP<const MatrixExpr> build(const Node &n)
     if (h == "add" || h == "had") {
         vec_basic v;
         for (size_t k = 1; k <= na; k++)
-            v.push_back(build(n.kids[k]));
+            v.push_back(mbuild(n.kids[k]));
         return h == "add" ? matrix_add(v) : hadamard_product(v);
     }
     if (h == "mul") {
@@ -135,7 +135,7 @@ static RCP<const MatrixExpr> build(const Node &n)
             if (is_number_node(n.kids[k]))
                 v.push_back(number_of(n.kids[k]));
             else {
-                v.push_back(build(n.kids[k]));
+                v.push_back(mbuild(n.kids[k]));
                 nmat++;
             }
         }
@@ -148,7 +148,7 @@ static RCP<const MatrixExpr> build(const Node &n)
     if (h == "T" || h == "conj") {
         if (na != 1)
             throw BadOp();
-        auto a = build(n.kids[1]);
+        auto a = mbuild(n.kids[1]);
         return h == "T" ? transpose(a) : conjugate_matrix(a);
     }
     throw BadOp();
@@ -647,7 +647,7 @@ std::string hx_run(const std::string &line, std::string &oracle)
     bool symbolic = has_head(recipe, "M") || has_head(recipe, "s");
     RCP<const MatrixExpr> m;
     try {
-        m = build(recipe);
+        m = mbuild(recipe);
     } catch (BadOp &) {
         return "bad-op";
     } catch (std::string &tok) {
